@@ -266,7 +266,9 @@ class Engine:
         reg = p.ghost.setdefault("pure_reads", {})
         out = []
         for t in terms:
-            if z3.is_real(t) and not z3.is_const(t) and not z3.is_rational_value(t) and not has_bvar(t):
+            if z3.is_real(t) and not z3.is_const(t):
+                t = z3.simplify(t)  # select over store at the same index collapses to the stored term
+            if z3.is_real(t) and z3.is_app(t) and t.decl().kind() == z3.Z3_OP_SELECT and not has_bvar(t):
                 hit = reg.get(t.get_id())
                 if hit is None or not hit[0].eq(t):
                     hit = (t, z3.Real(fresh_name("rd")))
